@@ -436,6 +436,18 @@ def t_deep():
         case = {"kind": "pointer", "text": ptr, "origin": "deep-%d" % depth}
         guarded(stats, "pointer.resolve", case, lambda: JSONPointer(ptr).resolve(deep_doc), JSONPointerResolutionError)
         guarded(stats, "evaluate", {"kind": "query", "text": "$..*", "origin": "deep-doc"}, lambda: jsonpath.findall("$..*", deep_doc), JSONPathError)
+    # numbers that do not fit a double, met by every comparison operator and function, from either side
+    bigdoc = [10 ** 400, -(10 ** 400), 10 ** 309, 2 ** 1024, 1.5, -1.5, 1e308, 0, 1, "a", None, True, [10 ** 400], {"a": 10 ** 400}]
+    big = "1" + "0" * 400
+    for text in ["$[?@ < 1.5]", "$[?@ > 1.5]", "$[?@ <= -1.5]", "$[?@ >= 1e308]", "$[?@ == 1.5]", "$[?@ != 1e308]", "$[?1.5 < @]", "$[?1e308 >= @]", "$[?@ < %s]" % big,
+                 "$[?@ > -%s]" % big, "$[?@ == %s]" % big, "$[?%s <= @]" % big, "$[?@ < %s.5]" % big[:300], "$[?@[0] < 1.5]", "$[?@.a > 0.5]", "$[?@ < $[4]]", "$[?$[0] < @]",
+                 "$[?@ in [1.5, %s]]" % big, "$[?length(@) < 1.5]", "$[?count(@.*) < %s]" % big, "$[?value(@[0]) < 2.5]", "$[?@ < 2.5 && @ > -%s]" % big]:
+        case = {"kind": "query", "text": text, "origin": "big-numbers"}
+        k, path = guarded(stats, "compile", case, lambda: jsonpath.compile(text), JSONPathError)
+        if k == "ok":
+            guarded(stats, "evaluate", case, lambda: list(path.finditer(bigdoc)), JSONPathError)
+            guarded(stats, "evaluate", case, lambda: path.findall([1.5, 2.5, 1e308, -1e308, 0.1]), JSONPathError)
+        stats.nt("big-numbers", text)
     # the shortest texts there are, on every panel document, through every entry point
     for text in ["$", "", " ", "$ ", " $", "^", "_", "@", "#", "~", "*", "..", ".", "$.", "$..", "$[", "$]", "[", "]", "$ | $", "$ & $", "^ | ^", "|", "&", "$ |", "| $",
                  "$[?@]", "$[?$]", "$[?^]", "$[?_]", "$[?#]", "$[?!@]", "$[?@==@]", "$[?$==$]", "$[?^==^]", "$[?_==_]", "$[?#==#]", "$[~]", "^[~]", "$..~", "$.~"]:
